@@ -244,3 +244,32 @@ def noop(I, a, kw):
 
 def same_file(c0, n0, c1, n1):
     return z3.And(n1 == n0, forall_range(0, n0, lambda k: z3.Select(c1, k) == z3.Select(c0, k)))
+
+
+def applications_of(fn, exprs):
+    """all distinct applications of the z3 function `fn` occurring in the expressions"""
+    seen, out, stack = set(), [], list(exprs)
+    while stack:
+        e = stack.pop()
+        if not z3.is_expr(e) or e.get_id() in seen:
+            continue
+        seen.add(e.get_id())
+        if z3.is_quantifier(e):
+            stack.append(e.body())
+            continue
+        if z3.is_app(e):
+            if e.decl().eq(fn):
+                out.append(e)
+            stack.extend(e.children())
+    return out
+
+
+def injectivity_instances(fn, exprs):
+    """collision resistance of `fn` instantiated on every pair of its applications in the obligation (quantifier-free)"""
+    apps = applications_of(fn, exprs)
+    cs = []
+    for i in range(len(apps)):
+        for j in range(i + 1, len(apps)):
+            x, y = apps[i], apps[j]
+            cs.append(z3.Implies(x == y, z3.And([a == b for a, b in zip(x.children(), y.children())])))
+    return cs
